@@ -186,6 +186,14 @@ fn logical_requests(g: &mut Rng, secrets: &HashMap<String, String>) -> Vec<(Stri
     for &j in crs.iter().step_by((crs.len() / 40).max(1)) {
         tokens.extend([j, j + 1, j + 2]);
     }
+    // ... and where the bytes after a CR go on like the delimiter, every position inside that look-alike
+    let full = format!("\r\n{delim}");
+    for &j in &crs {
+        let l = body[j..].iter().zip(full.as_bytes()).take_while(|(a, b)| a == b).count();
+        if l >= 3 {
+            tokens.extend(j + 1..=j + l);
+        }
+    }
     tokens.retain(|t| *t < body.len());
     tokens.sort_unstable();
     tokens.dedup();
